@@ -25,6 +25,7 @@ import PV.Model.Text
 import PV.Model.JsonDoc
 import PV.Model.Pobs
 import PV.Model.FlowWindow
+import PV.Model.Einsum
 
 open Lean PV PV.Wire
 
@@ -623,6 +624,9 @@ def dispatch (op : String) (j : Json) : Except String Json :=
   | "derived" => opDerived j
   | "readfile" => opReadFile j
   | "resample" => opResample j
+  | "einsum_out" => do
+      let sub : String ← get j "subs"
+      pure (obj [("subs", Json.str (Einsum.complete sub))])
   | "schema" => opSchema j
   | "dobs" => opDobs j
   | "cov" => opCov j
